@@ -134,6 +134,26 @@ partial def conv (gl : List Den.Ident) (j : Json) : Except String Stmt := do
   | "nonlocal" => pure .skip
   | t => throw s!"unknown statement {t}"
 
+/-- all scope bodies of a program (itself and, recursively, the bodies of nested def / lambda / class) -/
+def scopeBodies : Stmt → List Stmt
+  | .seq s t => scopeBodies s ++ scopeBodies t
+  | .ite c a b => scopeBodies c ++ scopeBodies a ++ scopeBodies b
+  | .while_ c b e => scopeBodies c ++ scopeBodies b ++ scopeBodies e
+  | .for_ it tg b e => scopeBodies it ++ scopeBodies tg ++ scopeBodies b ++ scopeBodies e
+  | .tryx _ _ b hs e => scopeBodies b ++ scopeBodies hs ++ scopeBodies e
+  | .hcons ty nm hb rest => scopeBodies ty ++ scopeBodies nm ++ scopeBodies hb ++ scopeBodies rest
+  | .fin s f => scopeBodies s ++ scopeBodies f
+  | .def_ pre _ _ _ body => scopeBodies pre ++ [body] ++ scopeBodies body
+  | .lam pre _ body => scopeBodies pre ++ [body] ++ scopeBodies body
+  | .cls pre _ _ body => scopeBodies pre ++ [body] ++ scopeBodies body
+  | _ => []
+
+/-- number of (read, its own name) pairs that are late reads (`lateRead`, the hypothesis of `C02_sound`), over all
+    scope bodies -/
+def lateCount (prog : Stmt) : Nat :=
+  ((prog :: scopeBodies prog).map fun body =>
+    ((readsOf body).filter fun (r, x) => lateRead body r x).length).foldl (· + ·) 0
+
 def altsJson (as : Alts) : Json :=
   Json.arr (as.eraseDups.toArray.map fun
     | some d => Json.num d
@@ -149,11 +169,13 @@ def handle (j : Json) : Json :=
     let runs := match j.getObjVal? "runs" with
       | .ok (Json.arr rs) => rs.toList.map fun (ds : Json) =>
           let dl := ((ds.getArr?.toOption).getD #[]).toList.map fun (b : Json) => (b.getNat?.toOption.getD 0) != 0
-          let (o, tr) := runProg prog dl
-          Json.mkObj [("outcome", Json.str (toString (repr o))), ("trace", traceJson tr)]
+          match runProg prog dl with
+          | some (o, tr) => Json.mkObj [("outcome", Json.str (toString (repr o))), ("trace", traceJson tr)]
+          | none => Json.mkObj [("outcome", Json.str "out-of-fuel"), ("trace", traceJson [])]
       | _ => []
     pure (Json.mkObj [("at", Json.arr ats.toArray), ("inC02", Json.bool (inC02 prog)), ("inC03", Json.bool (inC03 prog)),
-                      ("inSem", Json.bool (inSem prog)), ("runs", Json.arr runs.toArray)]) : Except String Json) with
+                      ("inSem", Json.bool (inSem prog)), ("runWf", Json.bool (runWf prog)),
+                      ("lateReads", Json.num (lateCount prog)), ("runs", Json.arr runs.toArray)]) : Except String Json) with
   | .ok r => r
   | .error e => errJson e
 end SuppModel.Drv.Den
